@@ -206,12 +206,14 @@ func main() {
 		{"class={[]CSSClass{c2,c1}}", OpClassSlice, []string{C2, C1}},
 		{"class={func() c2}", OpClassFunc, []string{C2}},
 		{"class={plain,c1,KV}", OpClassTwoArgs, []string{C1}},
+		{"class={c1,KV(c1),Classes(c1,c2),c2} (repeats in one expression)", OpClassRepeated, []string{C1, C2}},
+		{"onclick=s1 onmouseover=s1 onfocus=s2 (same script twice on one element)", OpOnclickSameTwice, []string{S1, S1, S2}},
 		{"once h1 {block}", OpOnce1Block, []string{"h:1"}},
 		{"once h2 (fixed component)", OpOnce2Fixed, []string{"h:2"}},
 	}
 	ops := append([]op{}, base...)
 	// the same uses through wrapper components, child blocks and repeated in one component
-	for _, i := range []int{0, 3, 7, 12, 13} {
+	for _, i := range []int{0, 3, 7, 12, 13, 14, 15} {
 		b := base[i]
 		ops = append(ops,
 			op{"wrapped(" + b.name + ")", func() templ.Component { return OpWrapped(b.mk()) }, b.uses},
@@ -244,7 +246,7 @@ func main() {
 
 	type variant struct {
 		name string
-		pre  []string // ids pre-registered in context A by the middleware
+		pre  []string // ids pre-registered by the middleware (in context A; in both contexts for the shared-middleware variant)
 		mk   func() [2]context.Context
 	}
 	variants := []variant{
@@ -260,6 +262,14 @@ func main() {
 			return [2]context.Context{a, templ.InitializeContext(context.Background())}
 		}},
 	}
+	variants = append(variants, variant{"contexts A and B are two requests through ONE CSS middleware registering c1", []string{C1}, func() [2]context.Context {
+		var got []context.Context
+		next := http.HandlerFunc(func(w http.ResponseWriter, r *http.Request) { got = append(got, r.Context()) })
+		mw := templ.NewCSSMiddleware(next, c1())
+		mw.ServeHTTP(httptest.NewRecorder(), httptest.NewRequest("GET", "/a", nil))
+		mw.ServeHTTP(httptest.NewRecorder(), httptest.NewRequest("GET", "/b", nil))
+		return [2]context.Context{got[0], got[1]}
+	}})
 	// stylesheet endpoint serves the registered rules
 	if _, sheet := middlewareCtx(c1(), c2()); !strings.Contains(sheet, "."+c1ID+"{") || !strings.Contains(sheet, "."+c2ID+"{") {
 		run.Violation("stylesheet-endpoint", "the CSS middleware's stylesheet endpoint does not serve the registered classes: "+vlib.Quote(sheet), map[string]any{"sheet": sheet})
@@ -304,6 +314,9 @@ func main() {
 		init := [2]map[string]bool{{}, {}}
 		for _, id := range v.pre {
 			init[0][id] = true
+			if strings.Contains(v.name, "ONE CSS middleware") {
+				init[1][id] = true
+			}
 		}
 		// BFS to closure over the (finite) model state space
 		type node struct {
